@@ -436,7 +436,7 @@ pub open spec fn str_cursor(c: Option<String>) -> Option<Seq<u8>> { match c { So
         r->Ok_0.members@.len() == pg.len() && forall|i: int| 0 <= i < pg.len() ==> utf8((#[trigger] r->Ok_0.members@[i]).addr@) == pg[i].0
             && u64::de(pg[i].1) == Some(r->Ok_0.members@[i].weight)
     })
-@eta "addr.as_ref().map" 1
+@eta ".as_ref().map" 1
     __c: &Addr -> Bound<&Addr>
 @closure_types 1
     item: StdResult<(Addr, u64)>
